@@ -29,9 +29,19 @@ const bound = 5 * time.Second
 type sink struct {
 	mu sync.Mutex
 	n  int
+	// slow > 0: every write takes that long (a sluggish events output); entered is signalled when one begins
+	slow    time.Duration
+	entered chan struct{}
 }
 
 func (s *sink) Write(p []byte) (int, error) {
+	if s.slow > 0 {
+		select {
+		case s.entered <- struct{}{}:
+		default:
+		}
+		time.Sleep(s.slow)
+	}
 	s.mu.Lock()
 	s.n++
 	s.mu.Unlock()
@@ -58,7 +68,7 @@ func runC13fifo(run *mc.Run) int {
 	var samples []any
 	lat := map[string]float64{}
 	for _, which := range []string{"syslog-ingester", "auditlog-ingester"} {
-		for _, state := range []string{"waiting-for-writer", "idle-open-pipe", "partial-record-buffered", "after-some-records", "idle-after-slow-handoff", "idle-after-the-writer-was-replaced", "blocked-handing-over-downstream", "waiting-for-writer-path-removed", "waiting-for-writer-path-recreated"} {
+		for _, state := range []string{"waiting-for-writer", "idle-open-pipe", "partial-record-buffered", "after-some-records", "idle-after-slow-handoff", "idle-after-the-writer-was-replaced", "blocked-handing-over-downstream", "waiting-for-writer-path-removed", "waiting-for-writer-path-recreated", "event-write-in-progress"} {
 			n++
 			name := which + "/" + state
 			path := filepath.Join(dir, fmt.Sprintf("c13-%d", n))
@@ -69,6 +79,13 @@ func runC13fifo(run *mc.Run) int {
 			npi := namedpipe.NewNamedPipeIngester(mc.DebugLogger(), health.NewHealth())
 			ctx, cancel := context.WithCancel(context.Background())
 			out := &sink{}
+			if state == "event-write-in-progress" {
+				if which != "syslog-ingester" {
+					n--
+					continue // only the sshd side writes events itself
+				}
+				out.slow, out.entered = 400*time.Millisecond, make(chan struct{}, 1)
+			}
 			auditCh := make(chan string, 100)
 			logins := make(chan common.RemoteUserLogin, 100)
 			if state == "idle-after-slow-handoff" || state == "blocked-handing-over-downstream" {
@@ -151,6 +168,14 @@ func runC13fifo(run *mc.Run) int {
 						time.Sleep(time.Millisecond)
 					}
 					time.Sleep(20 * time.Millisecond)
+				case "event-write-in-progress":
+					// the cancellation comes while the worker is in the middle of writing an event to a sluggish
+					// output: whatever it still delivers, it delivers before it returns
+					_, _ = w.WriteString("77 Failed password for a from 1.2.3.4 port 22 ssh2\n")
+					select {
+					case <-out.entered:
+					case <-time.After(2 * time.Second):
+					}
 				case "after-some-records":
 					_, _ = w.WriteString("77 Failed password for a from 1.2.3.4 port 22 ssh2\n77 Failed password for b from 1.2.3.4 port 22 ssh2\n")
 					for fionread(w) > 0 || delivered() < 2 {
@@ -170,12 +195,14 @@ func runC13fifo(run *mc.Run) int {
 			case <-time.After(bound):
 				msg = fmt.Sprintf("did not return within %v after its context was cancelled", bound)
 			}
-			// nothing may be delivered after it returned
+			// nothing may be delivered after it returned (what it had in hand it delivers before returning)
+			atReturn := delivered()
+			_ = before
 			if msg == "" && w != nil {
 				_, _ = w.WriteString("77 Failed password for late from 1.2.3.4 port 22 ssh2\n")
-				time.Sleep(50 * time.Millisecond)
-				if d := delivered(); d != before {
-					msg = fmt.Sprintf("%d records were delivered after the worker had returned", d-before)
+				time.Sleep(50*time.Millisecond + 2*out.slow)
+				if d := delivered(); d != atReturn {
+					msg = fmt.Sprintf("%d records were delivered after the worker had returned", d-atReturn)
 				}
 			}
 			if w != nil {
@@ -194,7 +221,7 @@ func runC13fifo(run *mc.Run) int {
 		}
 	}
 	cov := mc.Coverage{Level: "fault_enumeration", Evaluations: n, Distinct: n, Exhaustive: true, Samples: samples,
-		Rule:  "cancellation injected into SyslogIngester.Ingest and AuditLogIngester.Ingest on real FIFOs in each blocking state: waiting for a writer to open the pipe, blocked reading an idle open pipe, holding a partial record, idle after some records, idle after a back-pressure episode in which downstream accepted nothing for 1.5 s (thorough 6 s), idle after the first writer left and a second one connected (if the worker serves it), parked inside the callback because downstream (correlator / record channel) never takes the hand-off; the worker must return within the bound and deliver nothing afterwards. distinct_nontrivial = cells (all are blocking states)",
+		Rule:  "cancellation injected into SyslogIngester.Ingest and AuditLogIngester.Ingest on real FIFOs in each blocking state: waiting for a writer to open the pipe, blocked reading an idle open pipe, holding a partial record, idle after some records, idle after a back-pressure episode in which downstream accepted nothing for 1.5 s (thorough 6 s), idle after the first writer left and a second one connected (if the worker serves it), parked inside the callback because downstream (correlator / record channel) never takes the hand-off, in the middle of a 400 ms event write; the worker must return within the bound and deliver nothing afterwards. distinct_nontrivial = cells (all are blocking states)",
 		Extra: map[string]any{"bound_s": bound.Seconds(), "latency_s": lat}}
 	cov.Assumptions = []string{"real time: the bound (5 s) is three orders of magnitude above observed latencies; the OS scheduler is not controlled"}
 	return run.Finish(cov)
